@@ -242,6 +242,10 @@ func (x *Exec) assumeSliceWF(s *State, v Val) {
 	big := x.ilit(1 << 40)
 	s.assume(And(x.le(z, v.Off), x.le(v.Off, big), x.le(z, v.Len), x.le(v.Len, v.Cap), x.le(v.Cap, big),
 		Implies(Eq(v.Arr, IntLit(0)), And(Eq(v.Len, z), Eq(v.Cap, z)))))
+	// the backing array of a slice value that exists is an allocated object (so an array allocated
+	// later is a different one)
+	s.assume(mk(SBool, ">=", v.Arr, IntLit(0)))
+	x.assumeAllocated(s, v.Arr)
 }
 
 // assumeTypeInv adds the facts every well-typed Go value of type t satisfies.
@@ -551,6 +555,9 @@ func (x *Exec) havocAll(s *State, except func(key string) bool) {
 		}
 		if strings.HasPrefix(k, "G:") && x.p.constGlobal(k) {
 			continue
+		}
+		if strings.HasPrefix(k, "R:") {
+			continue // the position of a range-over-string iterator: no callee can reach it
 		}
 		if strings.HasPrefix(k, "C@") {
 			base := k
